@@ -12,7 +12,8 @@ RULE = ("(a) units: LogLikelihoods.logsumexp on vectors of length 0-12 with -inf
         "log units; rowsum_lower_tri / rowsum_upper_tri / ratio(div_0_null) / make_*_tri of both classes on random "
         "triangular arrays, grid sizes 2-8, with zeros / -inf; (b) whole inside+outside runs of both classes on "
         "msprime tree sequences (2-6 samples, recombination, renumbered nodes) and single trees, random prior grids "
-        "with zeros, cached and uncached g_i, outside standardisation on and off; (c) oracle: the public "
+        "with zeros, cached and uncached g_i, outside standardisation on and off, eps in {0 exactly, 1e-300, API default, "
+        "0.25, 1e-8..0.1} (the same value for both spaces); (c) oracle: the public "
         "inside_outside and maximization functions run in both spaces on the same input. A case is non-trivial "
         "when the input has mutations and >= 2 internal nodes; distinct by content hash."
         "About half of the inputs carry 1-3 extra mutations that sit on NO edge (above the root of the local tree; valid tskit input); the references count only mutations on edges, computed from the tables.")
@@ -122,7 +123,24 @@ def units(ctx, model_ok):
 
 
 # ---------------------------------------------------------------- whole runs
+EPS_CHOICES = [0.0, 0.0, 0.0, 1e-300, None, 0.25, 1e-8, 1e-6, 1e-3, 0.1]   # None = the API default
+
+
 def gen_cases(ctx, n_single, n_multi):
+    cases = _gen_cases(ctx, n_single, n_multi)
+    # eps is a caller-supplied parameter: boundary values included (exactly 0, tiny, default, large);
+    # the SAME value is passed to both probability spaces
+    for c in cases:
+        c["eps"] = ctx.rng.choice(EPS_CHOICES)
+    return cases
+
+
+def direct(c):
+    """the case as driven through Likelihoods directly (the API turns eps=None into 1e-8)"""
+    return dict(c, eps=1e-8) if c["eps"] is None else c
+
+
+def _gen_cases(ctx, n_single, n_multi):
     rng = ctx.rng
     cases = []
     shapes = [s for k in range(2, 6) for s in D.tree_shapes(k)]
@@ -202,19 +220,30 @@ def log_moderate(log):
 def oracle_case(ctx, case, stats):
     """the property: both spaces, same input, same results"""
     rp = {"case": case}
+    log = lin = None
+    elog = elin = None
     try:
         log = api_run(case, D.LOG, "inside_outside")
     except Exception as e:
-        ctx.oracle_fail("exception:" + type(e).__name__, "inside_outside (logarithmic) raised %r on a valid input" % (e,), rp)
-        return
-    moderate = log_moderate(log)
-    lin = None
+        elog = e
     try:
         lin = api_run(case, D.LIN, "inside_outside")
     except Exception as e:
+        elin = e
+    if elog is not None:
+        if elin is not None:
+            # both spaces reject the input alike: with eps = 0 exactly the discretised model can give the
+            # data probability 0 (more mutation-carrying edges in a chain than timepoints); no posterior exists
+            ctx.tally("skipped/both-spaces-raise:" + type(elog).__name__)
+            return
+        ctx.oracle_fail("exception:" + type(elog).__name__,
+                        "inside_outside raised %r in logarithmic space but returned in linear space" % (elog,), rp)
+        return
+    moderate = log_moderate(log)
+    if elin is not None:
         if moderate:
-            ctx.oracle_fail("exception:" + type(e).__name__,
-                            "inside_outside (linear) raised %r although no logarithmic value is below -600" % (e,), rp)
+            ctx.oracle_fail("exception:" + type(elin).__name__,
+                            "inside_outside (linear) raised %r although no logarithmic value is below -600" % (elin,), rp)
             return
         ctx.tally("skipped/linear-underflow-exception")
     if lin is not None and (underflow(lin["inside"], log["inside"]) or underflow(lin["outside"], log["outside"])
@@ -237,17 +266,27 @@ def oracle_case(ctx, case, stats):
             ctx.oracle_fail("inside_outside-spaces-differ", "linear and logarithmic results differ by %.3g" % worst,
                             dict(rp, lin={k: lin[k] for k in ("times", "lik", "mn", "vr")},
                                  log={k: log[k] for k in ("times", "lik", "mn", "vr")}))
+    mlog = mlin = None
+    emlog = emlin = None
     try:
         mlog = api_run(case, D.LOG, "maximization")
     except Exception as e:
-        ctx.oracle_fail("exception:" + type(e).__name__, "maximization (logarithmic) raised %r on a valid input" % (e,), rp)
-        return
+        emlog = e
     try:
         mlin = api_run(case, D.LIN, "maximization")
     except Exception as e:
+        emlin = e
+    if emlog is not None:
+        if emlin is not None:
+            ctx.tally("skipped/both-spaces-raise-max:" + type(emlog).__name__)
+            return
+        ctx.oracle_fail("exception:" + type(emlog).__name__,
+                        "maximization raised %r in logarithmic space but returned in linear space" % (emlog,), rp)
+        return
+    if emlin is not None:
         if moderate:
-            ctx.oracle_fail("exception:" + type(e).__name__,
-                            "maximization (linear) raised %r although no logarithmic value is below -600" % (e,), rp)
+            ctx.oracle_fail("exception:" + type(emlin).__name__,
+                            "maximization (linear) raised %r although no logarithmic value is below -600" % (emlin,), rp)
         else:
             ctx.tally("skipped/linear-underflow-exception")
         return
@@ -258,7 +297,7 @@ def oracle_case(ctx, case, stats):
         # numerically tied timepoints may be broken differently: the log-space choice must satisfy the
         # documented rule evaluated in linear space up to 1e-9, and vice versa
         il = D.grid_index(case["grid"], mlog["pm"])
-        bad = D.rule_check(dict(case, space=D.LIN), mlin["inside"], il, tol=1e-9) if None not in il else [("?", "off grid")]
+        bad = D.rule_check(dict(direct(case), space=D.LIN), mlin["inside"], il, tol=1e-9) if None not in il else [("?", "off grid")]
         if bad:
             ctx.oracle_fail("maximization-spaces-differ",
                             "maximization picks %r in linear and %r in logarithmic space (no tie: %r)"
@@ -278,14 +317,16 @@ def run(ctx, model_ok=True):
     if model_ok:
         both = []
         for c in cases:
-            both.append(c)
-            both.append(dict(c, space=D.LIN))
+            both.append(direct(c))
+            both.append(dict(direct(c), space=D.LIN))
         res = []
         for c in both:
             try:
                 res.append(D.run_io_impl(c))
             except Exception as e:
-                ctx.oracle_fail("exception:" + type(e).__name__, "BeliefPropagation raised %r" % (e,), {"case": c})
+                # e.g. eps = 0 exactly on an input to which the model gives probability 0: both classes raise;
+                # whether the two spaces agree on that is decided by oracle_case below
+                ctx.tally("correspondence-skipped/impl-raises:" + type(e).__name__)
                 res.append(None)
         D.io_correspondence(ctx, both, res, COQ_REQ)
         # NodeTimeValues.force_probability_space: log of the prior rows
